@@ -746,6 +746,25 @@ func (h *qhist) opReRegister() {
 	h.opRegister(v, rows)
 }
 
+// opHandover: validator a releases its accounts (moves to fresh keys) and validator b registers them:
+// a key changes hands while messages it already signed are still queued.
+func (h *qhist) opHandover() {
+	r := h.run.Rng
+	a := r.Intn(nVals)
+	b := (a + 1 + r.Intn(nVals-1)) % nVals
+	old := h.reg[a]
+	if len(old) == 0 {
+		return
+	}
+	h.run.Count("op", "key-handover")
+	var fresh []acctRow
+	for _, row := range old {
+		fresh = append(fresh, h.row(row.chain, r.Intn(len(h.keys))))
+	}
+	h.opRegister(a, fresh)
+	h.opRegister(b, old)
+}
+
 func (h *qhist) opReassign() {
 	if len(h.items) == 0 {
 		return
@@ -797,8 +816,10 @@ func runQueueHistory(t *testing.T, run *emit.Run, latent bool) *qhist {
 			h.opEstimates()
 		case k < 82:
 			h.opEndBlock()
-		case k < 92:
+		case k < 88:
 			h.opReRegister()
+		case k < 92:
+			h.opHandover()
 		case k < 96:
 			h.opRemove()
 		default:
